@@ -229,7 +229,8 @@ def gen_world_affine(rng: random.Random, tier: str):
         yield {"src": src, "tgt": tgt, "a": rng.choice(AX), "seed": rng.randrange(1 << 30),
                "A": [[round(rng.uniform(-0.05, 0.05), 4) for _ in range(d)] for _ in range(d)],
                "t": [round(rng.uniform(-0.3, 0.3), 3) for _ in range(d)], "shrink": round(rng.uniform(0.3, 0.6), 2),
-               "same_frame": rng.random() < 0.3}
+               "same_frame": rng.random() < 0.3,
+               "same_domain": [rng.choice([-2, -1, 1, 2, 3]) for _ in range(d)] if rng.random() < 0.25 else None}
 
 
 def check_world_affine(c):
@@ -242,7 +243,11 @@ def check_world_affine(c):
     xw = gs.points(Axes.WORLD, dtype=torch.float64)
     u = (xw @ A.T + t).movedim(-1, 0).float().unsqueeze(0)
     f = FlowFields(u, gs, Axes.WORLD).axes(Axes(c["a"]))
-    if c["same_frame"]:
+    if c.get("same_domain"):
+        # the target covers exactly the source's domain with another number of samples (grid.resize): a "nothing to do" shortcut
+        # is only right for the cube convention that matches the grids' flag
+        gt = gs.resize([max(2, int(n) + k) for n, k in zip(gs.size(), c["same_domain"])])
+    elif c["same_frame"]:
         gt = Grid(size=gs.size(), center=gs.center(), spacing=gs.spacing() * c["shrink"], direction=gs.direction(),
                   align_corners=not gs.align_corners())
     else:
